@@ -1228,6 +1228,17 @@ class MultipartWriter(Payload):
 
             # Add payload content using as_bytes for async safety
             part_bytes = await part.as_bytes(encoding, errors)
+            if _e or _te:
+                # Apply the codings the part's headers announce, as write() does
+                collector = _BytesCollector()
+                w = MultipartPayloadWriter(collector)  # type: ignore[arg-type]
+                if _e:
+                    w.enable_compression(_e)
+                if _te:
+                    w.enable_encoding(_te)
+                await w.write(part_bytes)
+                await w.write_eof()
+                part_bytes = bytes(collector.data)
             parts.append(part_bytes)
 
             # Add trailing CRLF
@@ -1293,6 +1304,16 @@ class MultipartWriter(Payload):
                     internal_logger.error(
                         "Failed to close multipart part %d: %s", idx, exc, exc_info=True
                     )
+
+
+class _BytesCollector:
+    """Minimal writer that collects what is written to it."""
+
+    def __init__(self) -> None:
+        self.data = bytearray()
+
+    async def write(self, chunk: bytes) -> None:
+        self.data += chunk
 
 
 class MultipartPayloadWriter:
